@@ -333,6 +333,21 @@ impl Display for Format<'_, Formula> {
             Formula::AtomicFormula(a) => Format(a).fmt(f),
             Formula::UnaryFormula { formula, .. } => self.fmt_unary(Format(formula.as_ref()), f),
             Formula::QuantifiedFormula { formula, .. } => {
+                // An atomic formula that starts with a variable (e.g. `X = 3`) must be
+                // parenthesised: `forall Y X = 3` would read `X` as a quantified variable.
+                if let Formula::AtomicFormula(atomic_formula) = formula.as_ref() {
+                    let inner = Format(atomic_formula).to_string();
+                    let mut chars = inner.chars();
+                    let starts_with_variable = match (chars.next(), chars.next()) {
+                        (Some(c), _) if c.is_ascii_uppercase() => true,
+                        (Some('_'), Some(c)) if c.is_ascii_uppercase() => true,
+                        _ => false,
+                    };
+                    if starts_with_variable {
+                        self.fmt_operator(f)?;
+                        return write!(f, "({inner})");
+                    }
+                }
                 self.fmt_unary(Format(formula.as_ref()), f)
             }
             Formula::BinaryFormula { lhs, rhs, .. } => {
